@@ -94,10 +94,27 @@ func (p *c13Pumped) pause() {
 	}
 }
 
+// c13LogHook lets the scenario act at the moment the listener logs a line (observability / scheduling only).
+type c13LogHook struct{ fire func(e *log.Entry) }
+
+func (h *c13LogHook) Levels() []log.Level { return []log.Level{log.InfoLevel} }
+func (h *c13LogHook) Fire(e *log.Entry) error {
+	h.fire(e)
+	return nil
+}
+
 func c13RunD(rec *vcommon.Rec) {
 	oldC, oldO := ConnectionTimeout, OldConnectionTimeout
 	ConnectionTimeout, OldConnectionTimeout = 40*time.Second, 45*time.Second
 	defer func() { ConnectionTimeout, OldConnectionTimeout = oldC, oldO }()
+	// the listener's own Info lines are used as scheduling points (output stays discarded). Hooks run under logrus' mutex and
+	// what the hook does logs again: the mutex is switched off (this process runs nothing but this scenario).
+	log.StandardLogger().SetNoLock()
+	log.SetLevel(log.InfoLevel)
+	defer func() {
+		log.SetLevel(log.PanicLevel)
+		log.StandardLogger().ReplaceHooks(make(log.LevelHooks))
+	}()
 	passes := rec.Pick(2, 3)
 	desc := &c13DDesc{Part: "d", ConnectionTimeout: ConnectionTimeout.String(), OldTimeout: OldConnectionTimeout.String(), Passes: passes}
 	rec.Mark(desc)
@@ -155,6 +172,41 @@ func c13RunD(rec *vcommon.Rec) {
 	if a == nil || c == nil || a2 == nil || k == nil {
 		return
 	}
+	// S is left idle like C. At the moment the janitor reports S as stale (its own log line, i.e. in the middle of a pass) the
+	// scenario tries to change the table: if the table's lock can be had at that moment, the server application closes S and a
+	// new peer H completes its handshake right there, inside the pass (H then holds S's slot while the pass is still running);
+	// if the lock is held (the pass is one critical section) the same two steps are done right after the pass instead.
+	// Either way H is a live session that must survive that pass and the following ones.
+	si := open("S")
+	if si == nil {
+		return
+	}
+	var hookMu sync.Mutex
+	var hookSeen, actedInside bool
+	var hInside *c13Pumped
+	sMark := "(" + si.s.addr.String() + ")"
+	hRole := "H: takes the slot of S (idle; closed by the server application when the janitor reported it stale)"
+	log.AddHook(&c13LogHook{fire: func(e *log.Entry) {
+		if !strings.HasPrefix(e.Message, "Removing stale user connection") || !strings.Contains(e.Message, sMark) {
+			return
+		}
+		hookMu.Lock()
+		first := !hookSeen
+		hookSeen = true
+		hookMu.Unlock()
+		if !first {
+			return
+		}
+		if !n.lst.usersLock.TryLock() {
+			return // the pass holds the table: nothing can happen to it before the pass is over
+		}
+		n.lst.usersLock.Unlock()
+		_ = si.s.user.Close()
+		h := openAt(900, hRole)
+		hookMu.Lock()
+		actedInside, hInside = true, h
+		hookMu.Unlock()
+	}})
 	_ = a.s.client.Close()
 	b := pump(open("B: reuses the slot of A, which was closed before the first pass"))
 	if b != nil && b.s.id != a.s.id {
@@ -261,6 +313,20 @@ func c13RunD(rec *vcommon.Rec) {
 		}
 		rec.Stat("d_expiry_passes_observed", 1)
 		if pass == 1 {
+			hookMu.Lock()
+			seen, inside, h := hookSeen, actedInside, hInside
+			hookMu.Unlock()
+			switch {
+			case !seen:
+				rec.Seen("d_table_when_the_janitor_reported_S_stale", "log line not observed")
+			case inside:
+				rec.Seen("d_table_when_the_janitor_reported_S_stale", "lock free: S closed and H opened inside the pass")
+				pump(h)
+			default:
+				rec.Seen("d_table_when_the_janitor_reported_S_stale", "lock held by the pass: S closed and H opened after the pass")
+			}
+		}
+		if pass == 1 {
 			r := idleProbe()
 			rec.Seen("d_idle_session_after_first_pass(answer to its next message)", r)
 			if c13IsReject(r) {
@@ -278,6 +344,15 @@ func c13RunD(rec *vcommon.Rec) {
 					rec.Stat("d_late_closes_of_expired_sessions_whose_slot_is_live_again", 1)
 				}
 				_ = c.s.user.Close()
+			}
+		}
+		if pass == 1 {
+			hookMu.Lock()
+			inside := actedInside
+			hookMu.Unlock()
+			if !inside {
+				_ = si.s.user.Close()
+				pump(openAt(900, hRole))
 			}
 		}
 		if pass < passes {
@@ -298,10 +373,17 @@ type c13Item struct {
 	b *c13BItem
 	c *c13CItem
 	e *c13EScn
+	f *c13FScn
 }
 
 func c13Items(rec *vcommon.Rec, part string, race bool) []c13Item {
 	var as, bs, cs, es []c13Item
+	if strings.Contains(part, "f") {
+		// (appended to the (e) list: both are short lists of whole-history scenarios)
+		for _, sc := range c13FScenarios(rec) {
+			es = append(es, c13Item{f: sc})
+		}
+	}
 	if strings.Contains(part, "e") {
 		for _, sc := range c13EScenarios(rec) {
 			es = append(es, c13Item{e: sc})
@@ -385,6 +467,10 @@ func TestVerifC13(t *testing.T) {
 			var sc c13EScn
 			json.Unmarshal(rec.Replay, &sc)
 			c13RunE(rec, &sc)
+		case "f":
+			var sc c13FScn
+			json.Unmarshal(rec.Replay, &sc)
+			c13RunF(rec, &sc)
 		default:
 			t.Fatalf("replay descriptor without a part: %s", rec.Replay)
 		}
@@ -407,6 +493,8 @@ func TestVerifC13(t *testing.T) {
 			c13RunC(rec, it.c)
 		case it.e != nil:
 			c13RunE(rec, it.e)
+		case it.f != nil:
+			c13RunF(rec, it.f)
 		}
 	}
 }
